@@ -568,8 +568,16 @@ class AtLeastKInARow(_KInARow):
 
         # Request sublists for k+1 to allow us to determine the transition
         sublistss = self._build_variable_sublistss(block, level, self.k + 1)
+        var_lists = block.build_variable_lists(level, self.within_block)
         implications = []
-        for sublists in sublistss:
+        for sublists, var_list in zip(sublistss, var_lists):
+            if not sublists:
+                # No more than k trials here: the level fills exactly k trials or is absent
+                if len(var_list) < self.k:
+                    implications.extend([Not(v) for v in var_list])
+                else:
+                    implications.extend([Iff(var_list[0], v) for v in var_list[1:]])
+                continue
             # Starting corner case
             implications.append(If(sublists[0][0], And(sublists[0][1:-1])))
             for sublist in sublists:
@@ -639,9 +647,14 @@ class ExactlyKInARow(_KInARow):
                                  backend_request: BackendRequest
                                  ) -> None:
         sublistss = self._build_variable_sublistss(block, level, self.k)
+        var_lists = block.build_variable_lists(level, self.within_block)
         implications = []
 
-        for sublists in sublistss:
+        for sublists, var_list in zip(sublistss, var_lists):
+            if not sublists:
+                # Fewer than k trials here, so the level cannot appear among them
+                backend_request.cnfs.append(And([-v for v in var_list]))
+                continue
             # Handle the regular cases (1 => 2 ^ ... ^ n ^ ~n+1)
             trim = len(sublists) if self.k > 1 else len(sublists) - 1
             for idx, l in enumerate(sublists[:trim]):
